@@ -493,6 +493,10 @@ func genC15(g *gen, tier string) *Scenario {
 	if mixedCosts {
 		sc.Cache.MaxSize = int64(pick(g, 3, 4, 6, 8))
 		sc.Stubs.LoaderCostMax = 3
+		// cost changes and the entry pool do not go together in an accounting rule: a cost UPDATE
+		// queued for a recycled entry's previous life is applied to its new one (the weakness the
+		// README documents; C02, C07 and C16 keep the pool off for the same reason)
+		sc.Cache.Pool = false
 	}
 	for c := 0; c < nc; c++ {
 		var ops []Op
